@@ -26,6 +26,7 @@ func main() {
 	known := flag.String("known", "", "known findings file")
 	lock := flag.String("lock", "", "obligations.lock file")
 	updateLock := flag.Bool("update-lock", false, "rewrite obligations.lock from this run")
+	flag.BoolVar(&dumpAll, "dumpall", false, "keep every script in -keep dir")
 	verifDir := flag.String("verif", "/verif", "verification directory (known findings, replays)")
 	level := flag.String("level", "proof", "evidence level")
 	flag.Parse()
